@@ -10,6 +10,7 @@ import (
 	"os"
 	"os/exec"
 	"path/filepath"
+	"runtime/pprof"
 	"sort"
 	"strconv"
 	"strings"
@@ -94,10 +95,19 @@ func root() string {
 
 // runShardLoop executes the runs of one shard in this process.
 func runShardLoop(ctx *core.Ctx, meta *props.Meta, runs int) {
+	slow := time.Duration(envInt("VERIF_SLOWRUN_MS", 0)) * time.Millisecond
+	only := envInt("VERIF_ONLY_RUN", -1)
 	for i := ctx.Shard; i < runs; i += ctx.Shards {
+		if only >= 0 && i != only {
+			continue
+		}
+		t0 := time.Now()
 		r := ctx.BeginRun(i)
 		meta.Run(ctx, r)
 		ctx.EndRun()
+		if d := time.Since(t0); slow > 0 && d > slow { // diagnostics only: never influences a choice or the event log
+			fmt.Fprintf(os.Stderr, "dst: slow run %d: %v\n", i, d)
+		}
 	}
 }
 
@@ -443,6 +453,11 @@ func hashes(prop, tier, runsS string) int {
 		if err := meta.Setup(ctx); err != nil {
 			return core.ExitTrouble
 		}
+	}
+	if pf := os.Getenv("VERIF_CPUPROFILE"); pf != "" {
+		f, _ := os.Create(pf)
+		pprof.StartCPUProfile(f)
+		defer pprof.StopCPUProfile()
 	}
 	runShardLoop(ctx, meta, runs)
 	idx := make([]int, 0, len(ctx.RunHashes))
